@@ -20,6 +20,7 @@ mod p14;
 mod p16;
 mod p17;
 mod p18;
+mod p18b;
 mod p19;
 mod p20;
 mod p08;
